@@ -112,12 +112,31 @@ def rejectedFrame (name : String) (r : SFrame) (err : String) : SFrame :=
   { topic := topicOf name sUnregistered, ctx := r.ctx, id := 0,
     mdata := some [("handler_id", idText r.id), ("error", err)] }
 
-/-- `start_handler` / `Handler::spawn` on the stream as it is: subscribe, then announce.
-    `parse` is `Handler::from_frame` (script evaluation), a parameter. -/
+/-- the first `.register` / `.unregister` of the handler's name and context stored after its own
+    `.register` (`read_sync(last_id = self.id, context).find(..)` in `Handler::spawn`) -/
+def laterTraffic (cfg : HCfg) (stream : List SFrame) : Option SFrame :=
+  stream.find? (fun f => f.ctx = cfg.ctx && cfg.id < f.id && isRegTraffic cfg f)
+
+/-- `start_handler` / `Handler::spawn` on the stream as it is: subscribe; a tail handler whose
+    name was registered again or unregistered in the meantime announces its own stop and never
+    starts; otherwise announce `<name>.registered`.  `parse` is `Handler::from_frame` (script
+    evaluation), a parameter. -/
 def startHandler (parse : SFrame → Except String (HCfg × Resume)) (name : String) (stream : List SFrame)
     (r : SFrame) : List SFrame × Option Started :=
   match parse r with
-  | .ok (cfg, resume) => (stream ++ [registeredFrame cfg], some ⟨cfg, resume, stream.length⟩)
+  | .ok (cfg, resume) =>
+    match (if resume = .tail then laterTraffic cfg stream else none) with
+    | some f => (stream ++ [unregistered cfg f none], none)
+    | none => (stream ++ [registeredFrame cfg], some ⟨cfg, resume, stream.length⟩)
   | .error e => (stream ++ [rejectedFrame name r e], none)
+
+/-- what the serve loop may announce for a `.register` it gets to: the decision for a tail
+    handler depends on how much of the stream was stored when it looked -/
+structure StartInfo where
+  hid : Nat
+  valid : Bool
+  /-- the frame that supersedes it, if any is ever stored (tail handlers only) -/
+  supersededBy : Option Nat
+  deriving Repr
 
 end Xs.Serve
